@@ -56,7 +56,7 @@ MUTANTS = [
      """                                    (l_key.size() == kl &&
                                      l_end == scan_endpoint::EXCLUSIVE)))) {""",
      """                                    (l_key.size() == kl &&
-                                     l_end == scan_endpoint::EXCLUSIVE && kl > 64))) {""", "break"),
+                                     l_end == scan_endpoint::EXCLUSIVE && kl > 64)))) {""", "break"),
     ("c03-accept-empty-point-range", ["C03", "C10"], "interface_scan.h",
      """    return (l_end == scan_endpoint::INCLUSIVE && r_end == scan_endpoint::INCLUSIVE)
             ? status::OK // single point, not empty
@@ -112,7 +112,7 @@ MUTANTS = [
         insert_lv(""", "break"),
     ("c10-cursor-start-side-le", ["C10"], "interface_iscan.h",
      "            hit = (last_key < kt);", "            hit = (last_key <= kt);", "break"),
-    ("c10-cursor-no-perm-compare", ["C10"], "interface_iscan.h",
+    ("c10-cursor-no-perm-compare", ["C09", "C10"], "interface_iscan.h",
      "    if (check_v != v_at_fb || check_perm_b != perm.get_body()) {", "    if (check_v != v_at_fb) {", "break"),
     ("c11-root-race-loser-leaks-border", ["C11"], "interface_put.h",
      "                new_border->destroy();\n                delete new_border; // NOLINT\n                break;",
